@@ -1,6 +1,6 @@
 """C05 - concatenation keeps each operand's per-character styles; no bleed at the seam."""
 from .. import obs as O
-from .common import (Contract, ansi_values, history, run_cases, tier_sizes, safe_obs, is_ansi, is_plain_str,
+from .common import (trie_case, Contract, ansi_values, history, run_cases, tier_sizes, safe_obs, is_ansi, is_plain_str,
                      render_failures, GROUP_CODES, small_scope_values, small_scope_on)
 
 PROP = "C05"
@@ -271,6 +271,22 @@ def drive(ctx, mon, tier, only_case=None):
             if m >= 2:
                 for v, _ in small_scope_values(L, 2, ctx.shard, nsh):
                     split_rejoin_probe(ctx, mon, v, rng)
+            return
+        if case == 1:
+            with mon.quiet():
+                rights = [L.AnsiString('xy'), L.AnsiString('xy', '31'), L.AnsiString('xy', '1', '34'), L.AnsiStr('x', '34') + 'y']
+                rights[0].apply_formatting('31', 0, 1)
+                rights[2].remove_formatting('1', 1, 2)
+
+            def visit(v, p):
+                split_rejoin_probe(ctx, mon, v, rng)
+                for r in rights:
+                    v + r
+                v + v
+                r = rights[len(p) % len(rights)]
+                r + v
+                L.AnsiString.join(v, 'q', r)
+            trie_case(ctx, mon, tier, 2, 3, visit=visit, cls=L.AnsiStr if ctx.shard % 4 == 3 else None)
             return
         profile = 'mixed' if rng.random() < 0.3 else 'wf'
         # small setting vocabulary makes equal / reordered seams frequent
